@@ -1,0 +1,50 @@
+package ast
+
+// deepCopyValue copies what the `any` fields of the IR hold: defaults,
+// constants, constraint arguments and hints. Lists, maps and IR nodes are
+// copied; everything else is a value that can't be modified in place.
+func deepCopyValue(value any) any {
+	switch v := value.(type) {
+	case []any:
+		if v == nil {
+			return v
+		}
+		values := make([]any, len(v))
+		for i := range v {
+			values[i] = deepCopyValue(v[i])
+		}
+		return values
+	case map[string]any:
+		if v == nil {
+			return v
+		}
+		values := make(map[string]any, len(v))
+		for key, item := range v {
+			values[key] = deepCopyValue(item)
+		}
+		return values
+	case []string:
+		if v == nil {
+			return v
+		}
+		return append(make([]string, 0, len(v)), v...)
+	case Type:
+		return v.DeepCopy()
+	case *Type:
+		if v == nil {
+			return v
+		}
+		typeCopy := v.DeepCopy()
+		return &typeCopy
+	case DisjunctionType:
+		return v.DeepCopy()
+	case *DisjunctionType:
+		if v == nil {
+			return v
+		}
+		disjunctionCopy := v.DeepCopy()
+		return &disjunctionCopy
+	}
+
+	return value
+}
